@@ -176,6 +176,14 @@ def dds_hash(x: Any) -> PyHash:
     return _dds_hash(x, None)
 
 
+def _hash_arg_value(v: Any) -> PyHash:
+    """
+    The hash of the value bound to a parameter. It must not depend on how the value is provided:
+    at runtime, as a literal read in the source code, or as the default value of the parameter.
+    """
+    return dds_hash(v if v is not None else "__none__")
+
+
 def get_arg_list(
     f: Callable,  # type: ignore
 ) -> List[str]:
@@ -208,12 +216,12 @@ def get_arg_ctx(
             # It is a list argument
             # TODO: should it discard arguments of not-whitelisted types?
             # TODO: raise a warning for non-whitelisted objects
-            h = dds_hash(args[idx])
+            h = _hash_arg_value(args[idx])
         else:
             # Either positional or default argument
             if n in kwargs:
                 # positional argument
-                h = dds_hash(kwargs[n])
+                h = _hash_arg_value(kwargs[n])
             elif p.default != Parameter.empty:
                 # Argument is not provided but it has a default value
                 # Use the default argument as an input
@@ -221,7 +229,7 @@ def get_arg_ctx(
                 # a warning/errors in most linters.
                 # TODO: should it discard arguments of not-whitelisted types?
                 # TODO: raise a warning for non-whitelisted objects
-                h = dds_hash(p.default or "__none__")
+                h = _hash_arg_value(p.default)
             elif p.kind == Parameter.VAR_KEYWORD:
                 # kwargs: for now, just ignored
                 h = None
@@ -299,7 +307,7 @@ def get_arg_ctx_ast(
                 # a warning/errors in most linters.
                 # TODO: should it discard arguments of not-whitelisted types?
                 # TODO: raise a warning for non-whitelisted objects
-                h = dds_hash(p.default or "__none__")
+                h = _hash_arg_value(p.default)
             else:
                 # Do not consider this argument for the time being
                 h = None
